@@ -68,6 +68,13 @@ def marksAllowedAt (S : Schema) (doc : Node) (p : Nat) (n : Node) : Bool :=
   | some rp => (S.nodeType (S.tyOf rp.parent)).allowsMarks n.marks
   | none => true
 
+/-- `p` is a child boundary of the top node, and the top node is not a textblock (for `insertPoint_insert_marked_top`:
+    the Fitter's run is then evaluated exactly) -/
+def topBoundary (S : Schema) (doc : Node) (p : Nat) : Bool :=
+  match doc.resolve p with
+  | some rp => rp.depth == 0 && rp.textOffset == 0 && !S.isTextblock doc
+  | none => false
+
 /-- what the Fitter's `place_nodes` makes of a node put in at `p`: `node.mark(parent_type.allowed_marks(node.marks))` —
     the marks the parent of `p` does not allow are dropped -/
 def strippedAt (S : Schema) (doc : Node) (p : Nat) (n : Node) : Node :=
